@@ -157,7 +157,8 @@ def load_realign(repo):
                 for ft in proc.faults:
                     if ft.kind == "raise" and not ft.fired and ft.record == kcall:
                         ft.fired = True
-                        w.fault_log.append(dict(ft.to_json(), how="raise", lock_leaked=False, torn_frame=False, delivered_all=False))
+                        w.fault_log.append(dict(ft.to_json(), how="raise", lock_leaked=False, torn_frame=False, delivered_all=False,
+                                                siblings_alive=sum(1 for p in w.procs if p is not proc and not p.dead)))
                         w.kernel._note(proc.label, "fault", "raise %s at align call %d" % (ft.exc, kcall))
                         if ft.exc == "SystemExit":
                             raise SystemExit(ft.code)
